@@ -18,11 +18,13 @@ INT_RANGES = {"int8": (-2**7, 2**7-1), "int16": (-2**15, 2**15-1), "int32": (-2*
 
 
 RDIV = z3.Function("RDIV", R, R, R)
+EXACT_DIV = False      # counterexample search (pyvc/cex.py): a real quotient, so that a model's numbers are the numbers the code computes
 def rdiv(a, b):
     """real division: by a numeral it is linear arithmetic; by a symbolic divisor it is the uninterpreted RDIV(a, b) in code AND in specifications, so that
     'the code computes the quotient the contract names' is decided by congruence instead of non-linear arithmetic. Facts about quotients that a proof needs
     (b != 0 => RDIV(a, b) * b == a) are stated where they are needed (contracts / lemmas), not assumed globally."""
     sb = z3.simplify(b)
+    if EXACT_DIV: return a / b
     return a / b if z3.is_rational_value(sb) or z3.is_int_value(sb) else RDIV(a, b)
 
 
@@ -60,6 +62,7 @@ class Val:
 @dataclass
 class Obligation:
     name: str; kind: str; hyps: list; goal: object; line: int = 0
+    st: object = None; rv: object = None; outcome: str = None      # bounded counterexample search only: the state the obligation was emitted in, the value returned on that path
 
 
 class Heap:
@@ -127,7 +130,7 @@ class Engine:
     def fc(self, base, sort): return z3.Const(f"{base}!{next(self.fresh)}", sort)
 
     def emit(self, st, kind, goal, line, tag=""):
-        if self.bmc and kind != "post": return
+        if self.bmc and kind not in ("post", "raises", "assert", "divzero", "bounds", "overflow", "race", "negindex", "lossy", "exact", "alloc_elem", "frame", "pre", "shape"): return
         hyps = list(st.pc)
         if kind == "inv_pres":
             m0 = re.match(r"\[loop(\d+)\.(\d+)\]", tag)
@@ -140,7 +143,8 @@ class Engine:
         what = tag.strip("[]").replace(" ", "_")
         base = f"{self.qualname}[{self.inst_name}]::{kind}.{what}@{st.path or '-'}"
         k = self.name_count.get(base, 0); self.name_count[base] = k + 1
-        self.obls.append(Obligation(f"{base}#{k}", kind, hyps, goal, line))
+        ob = Obligation(f"{base}#{k}", kind, hyps, goal, line, st=(st.fork() if self.bmc else None))
+        self.obls.append(ob); return ob
 
     # ---- cone of influence over the global definitions (conservative facts about fresh constants; dropping unreferenced ones is sound and keeps
     #      e.g. a non-linear quotient that only flows into `out` away from the obligations that do not mention `out`)
@@ -326,7 +330,9 @@ class Engine:
             na, nb_ = self.arr_len(st, a), self.arr_len(st, b)
             if not self.in_spec: self.emit(st, "shape", na == nb_, line, "[elementwise +]")
             t = self.fc("sumarr", z3.ArraySort(I, I)); j = z3.Int(f"j?{next(self.fresh)}")
-            st.pc.append(z3.ForAll([j], z3.Implies(z3.And(j >= 0, j < na), z3.Select(t, j) == self.arr_read(st, a, j, line, check=False) + self.arr_read(st, b, j, line, check=False)), patterns=[z3.Select(t, j)]))
+            if self.bmc and self.conc(na) is not None:
+                for i_ in range(self.conc(na)): st.pc.append(z3.Select(t, i_) == self.arr_read(st, a, z3.IntVal(i_), line, check=False) + self.arr_read(st, b, z3.IntVal(i_), line, check=False))
+            else: st.pc.append(z3.ForAll([j], z3.Implies(z3.And(j >= 0, j < na), z3.Select(t, j) == self.arr_read(st, a, j, line, check=False) + self.arr_read(st, b, j, line, check=False)), patterns=[z3.Select(t, j)]))
             ref = st.heap.new("int", "int64", (na,), t, "sumarr")
             return Val("arr", ref=ref, elem="int", dtype="int64")
         if a.kind == "bool": a = Val("int", z3.If(a.z, 1, 0))
@@ -364,6 +370,10 @@ class Engine:
 
     def ev_BinOp(self, st, e):
         return self.arith(st, type(e.op), self.ev(st, e.left), self.ev(st, e.right), e.lineno, e.right)
+
+    def conc(self, z):
+        z = z3.simplify(z)
+        return z.as_long() if z3.is_int_value(z) else None
 
     def fdiv(self, fa, fb):
         inf = self.fc("infq", F)
@@ -499,7 +509,9 @@ class Engine:
             a = self.ev(st, e.func.value); n = self.arr_len(st, a)
             t = self.fc("copy", z3.ArraySort(I, sort_of(a.elem)))
             j = z3.Int(f"j?{next(self.fresh)}")
-            st.pc.append(z3.ForAll([j], z3.Implies(z3.And(j >= 0, j < n), z3.Select(t, j) == self.arr_read(st, a, j, e.lineno, check=False))))
+            if self.bmc and self.conc(n) is not None:
+                for i_ in range(self.conc(n)): st.pc.append(z3.Select(t, i_) == self.arr_read(st, a, z3.IntVal(i_), e.lineno, check=False))
+            else: st.pc.append(z3.ForAll([j], z3.Implies(z3.And(j >= 0, j < n), z3.Select(t, j) == self.arr_read(st, a, j, e.lineno, check=False))))
             ref = st.heap.new(a.elem, a.dtype, (n,), t, "copy")
             return Val("arr", ref=ref, elem=a.elem, dtype=a.dtype)
         fv = st.env.get(fname)
@@ -538,13 +550,18 @@ class Engine:
             if z3.is_const(fz) and fz.decl().kind() == z3.Z3_OP_UNINTERPRETED:
                 # a symbolic fill value (np.full(n, null_value)): SMT-LIB constant arrays need a literal, so define the array by a quantified fact (portable to cvc5)
                 init = self.fc("full1", z3.ArraySort(I, sort_of(elem))); a_ = z3.Int(f"a?{next(self.fresh)}")
-                st.pc.append(z3.ForAll([a_], z3.Select(init, a_) == fz, patterns=[z3.Select(init, a_)]))
+                if self.bmc and len(dims) == 1 and self.conc(dims[0]) is not None:
+                    for i_ in range(self.conc(dims[0])): st.pc.append(z3.Select(init, i_) == fz)
+                else: st.pc.append(z3.ForAll([a_], z3.Select(init, a_) == fz, patterns=[z3.Select(init, a_)]))
             else:
                 init = z3.K(I, fz) if len(dims) == 1 else z3.K(I, z3.K(I, fz))
             if len(dims) == 2:
                 init = self.fc("full2", z3.ArraySort(I, I, sort_of(elem)))
                 a, b = z3.Ints(f"a?{next(self.fresh)} b?{next(self.fresh)}")
-                st.pc.append(z3.ForAll([a, b], z3.Select(init, a, b) == fz))
+                if self.bmc and all(self.conc(d) is not None for d in dims):
+                    for i_ in range(self.conc(dims[0])):
+                        for j_ in range(self.conc(dims[1])): st.pc.append(z3.Select(init, i_, j_) == fz)
+                else: st.pc.append(z3.ForAll([a, b], z3.Select(init, a, b) == fz))
         ref = st.heap.new(elem, dtype, dims, init, "new")
         return Val("arr", ref=ref, elem=elem, dtype=dtype, ndim=len(dims))
 
@@ -602,12 +619,19 @@ class Engine:
         if fname in ("forall", "exists"):
             *vars_, lo, hi, body = e.args if len(e.args) == 4 else (e.args[0], e.args[1], e.args[2], e.args[3])
             var = vars_[0]
+            if self.bmc:
+                lo_c, hi_c = z3.simplify(self.ev(st, lo).z), z3.simplify(self.ev(st, hi).z)
+                if z3.is_int_value(lo_c) and z3.is_int_value(hi_c) and hi_c.as_long() - lo_c.as_long() <= 12:
+                    parts = []
+                    for c_ in range(lo_c.as_long(), hi_c.as_long()):
+                        st3 = State({**st.env, var.id: Val("int", z3.IntVal(c_))}, st.heap, st.pc); parts.append(self.truthy(self.ev(st3, body)))
+                    return Val("bool", (z3.And(*parts) if parts else z3.BoolVal(True)) if fname == "forall" else (z3.Or(*parts) if parts else z3.BoolVal(False)))
             zv = z3.Int(f"{var.id}?{next(self.fresh)}")
             st2 = State({**st.env, var.id: Val("int", zv)}, st.heap, st.pc)
             rng = z3.And(self.ev(st2, lo).z <= zv, zv < self.ev(st2, hi).z); b = self.truthy(self.ev(st2, body))
             pats = []
             for kw in e.keywords:
-                if kw.arg == "trigger": pats = [self.ev(st2, kw.value).z]
+                if kw.arg == "trigger" and not self.bmc: pats = [self.ev(st2, kw.value).z]      # (bounded search: index terms are ite-terms, not usable as patterns)
             q = z3.ForAll([zv], z3.Implies(rng, b), patterns=pats) if fname == "forall" else z3.Exists([zv], z3.And(rng, b))
             return Val("bool", q)
         if fname == "implies": return Val("bool", z3.Implies(self.truthy(self.ev(st, e.args[0])), self.truthy(self.ev(st, e.args[1]))))
@@ -694,7 +718,11 @@ class Engine:
         old = st.heap.arr[arr.ref]; new = self.fc(label, old.sort())
         a, b = z3.Ints(f"a?{next(self.fresh)} b?{next(self.fresh)}")
         srcval = self.arr_read(st, src, b, line, check=False)      # read through the OLD heap (RHS evaluated first)
-        st.pc.append(z3.ForAll([a, b], z3.Select(new, a, b) == z3.If(z3.And(a == gi, b >= 0, b < n1), srcval, z3.Select(old, a, b)), patterns=[z3.Select(new, a, b)]))
+        if self.bmc and self.conc(n0) is not None and self.conc(n1) is not None:
+            for i_ in range(self.conc(n0)):
+                for j_ in range(self.conc(n1)):
+                    st.pc.append(z3.Select(new, i_, j_) == z3.If(gi == i_, self.arr_read(st, src, z3.IntVal(j_), line, check=False), z3.Select(old, i_, j_)))
+        else: st.pc.append(z3.ForAll([a, b], z3.Select(new, a, b) == z3.If(z3.And(a == gi, b >= 0, b < n1), srcval, z3.Select(old, a, b)), patterns=[z3.Select(new, a, b)]))
         st.heap.arr[arr.ref] = new
 
     def name_of(self, st, arr):
@@ -840,8 +868,12 @@ class Engine:
                     s_.env[cname] = Val("int", z3.IntVal(c_))
                     self.assign(s_, s.target, bind(s_, z3.IntVal(c_)), s.lineno)
                     for hint in lc.get("unfold", []): s_.pc.append(self.spec(s_, hint))
+                    for hint, _idxs in lc.get("unfold_scoped", []): s_.pc.append(self.spec(s_, hint))
                     for kind, e_st, val in self.run_block(s_, s.body):
-                        if kind in ("normal", "continue"): nxt.append(e_st)
+                        if kind in ("normal", "continue"):
+                            e_st.env[cname] = Val("int", z3.IntVal(c_ + 1))
+                            for code in lc.get("ghost_at_end", []): self.run_ghost(e_st, code)
+                            nxt.append(e_st)
                         elif kind == "break": outs.append(("normal", e_st, None))
                         else: outs.append((kind, e_st, val))
                 cur = nxt
@@ -919,6 +951,25 @@ class Engine:
 
     def ex_While(self, st, s):
         o = self.loop_ord[id(s)]; lc = self.contract.get("loops", {}).get(o)
+        if self.bmc:
+            cur = [st]; outs = []
+            for _fuel in range(10):
+                nxt = []
+                for s_ in cur:
+                    g = z3.simplify(self.truthy(self.ev(s_, s.test)))
+                    if not z3.is_true(g):
+                        x_ = s_.fork(); x_.pc.append(z3.Not(g))
+                        if z3.is_false(g) or self.feasible(x_): outs.append(("normal", x_, None))
+                    if not z3.is_false(g):
+                        b_ = s_.fork(); b_.pc.append(g)
+                        if z3.is_true(g) or self.feasible(b_):
+                            for kind, e_st, val in self.run_block(b_, s.body):
+                                if kind in ("normal", "continue"): nxt.append(e_st)
+                                elif kind == "break": outs.append(("normal", e_st, None))
+                                else: outs.append((kind, e_st, val))
+                cur = nxt
+                if not cur: break
+            return outs          # paths that need more than the fuel are dropped: the search is bounded anyway
         if lc is None: raise Stale(f"no contract for while loop {o}")
         if lc.get("iter") and lc["iter"] != ast.unparse(s.test): raise Stale(f"while loop {o} tests {ast.unparse(s.test)!r}, contract says {lc['iter']!r}")
         for j, inv in enumerate(lc["invariant"]): self.emit(st, "inv_init", self.spec(st, inv), s.lineno, f"[loop{o}.{j}]")
@@ -990,6 +1041,10 @@ class Engine:
 
     # ------------------------------------------------------------------ driver
     def verify(self, inst):
+        st = self.init_state(inst)
+        return self.verify_from(st)
+
+    def init_state(self, inst):
         st = State({}, Heap(), []); self.frozen = {}
         for a in self.fn.args.args: st.env[a.arg] = self.mk_param(st, a.arg, inst[a.arg])
         for gname, gtype in self.contract.get("ghost_params", {}).items():
@@ -1007,6 +1062,9 @@ class Engine:
         for p in self.contract.get("frozen", []):
             if st.env[p].kind == "arr": self.frozen[st.env[p].ref] = p
         for r in self.contract.get("requires", []): st.pc.append(self.spec(st, r))
+        return st
+
+    def verify_from(self, st):
         s = z3.Solver(); s.set(timeout=5000); s.add(*st.pc)
         self.pre_sat = str(s.check())
         try: outcomes = list(self.run_block(st, self.fn.body))
@@ -1017,9 +1075,12 @@ class Engine:
                 rv = val if kind == "return" else Val("none"); extra = {"result": rv}
                 if rv.kind == "tuple":
                     for i_, it in enumerate(rv.items): extra[f"result{i_}"] = it
-                for j, p in enumerate(self.contract.get("ensures", [])): self.emit(o, "post", self.spec(o, p, extra), self.fn.lineno, f"[{j}]")
+                for j, p in enumerate(self.contract.get("ensures", [])):
+                    ob = self.emit(o, "post", self.spec(o, p, extra), self.fn.lineno, f"[{j}]")
+                    if ob is not None: ob.rv = rv; ob.outcome = "return"
             elif kind == "raise":
-                rc = self.contract.get("raises"); self.emit(o, "raises", self.spec(o, rc) if rc else z3.BoolVal(False), self.fn.lineno, f"[{val}]")
+                rc = self.contract.get("raises"); ob = self.emit(o, "raises", self.spec(o, rc) if rc else z3.BoolVal(False), self.fn.lineno, f"[{val}]")
+                if ob is not None: ob.outcome = "raise"
             else: raise Unsupported(f"{kind} outside a loop")
         return self.obls
 
@@ -1034,6 +1095,15 @@ class Engine:
             for d in shape: st.pc.append(d >= 0)
             ref = st.heap.new(elem, dtype, shape, None, name)
             return Val("arr", ref=ref, elem=elem, dtype=dtype, ndim=nd)
+        if t.startswith("chunks:") and t.count(":") == 3:
+            _, elem, dtype, lens = t.split(":"); lens = [int(x) for x in lens.split(",") if x != ""]
+            ch = z3.Function(f"chunk_{name}", I, z3.ArraySort(I, sort_of(elem)))
+            def ln(c, lens=lens):
+                e_ = z3.IntVal(0)
+                for k_ in reversed(range(len(lens))): e_ = z3.If(c == k_, z3.IntVal(lens[k_]), e_)
+                return z3.simplify(e_)
+            self.specs[f"clen_{name}"] = ln; self.specs[f"chunk_{name}"] = ch
+            return Val("chunks", z=z3.IntVal(len(lens)), items=(ln,), term=ch, elem=elem, dtype=dtype)
         if t.startswith("chunks:"):
             _, elem, dtype = t.split(":")
             n = z3.Int(f"nchunks_{name}"); ln = z3.Function(f"clen_{name}", I, I); ch = z3.Function(f"chunk_{name}", I, z3.ArraySort(I, sort_of(elem)))
